@@ -139,6 +139,8 @@ def run(ctx, chk):
     # frontend's negotiation record equals what it sent, so it awaits exactly the acknowledgements the backend writes (C07/G5)
     from vlint.report import Renamed
     from . import c01, c07
+    chk.rule("D9", "the parallel region / descriptor lists of a memory table are only ever extended together (no reordering or editing of one list)")
+    d9(fb, chk)
     chk.rule("D6", "request bodies carry the caller's arguments field by field (C01/W5)")
     c01.w5(fb, Renamed(chk, {"W5": "D6"}))
     chk.rule("D7", "frontend operations tied to a feature put nothing on the wire before it is negotiated (C07/G1)")
@@ -507,6 +509,43 @@ def d4(fb, chk, tag):
                         ok = True
             chk.check(ok, "D4", tag + "set_vring_addr:flags", "undefined flag bits rejected locally",
                       "set_vring_addr sends without the must-fact flags & !defined == 0", f.loc(t["line"]))
+
+
+def d9(fb, chk, tag=""):
+    """Region i travels with descriptor i: the context that collects a memory table keeps two parallel vectors, which
+    stay paired only if nothing but its own `append` (one push to each) writes them."""
+    ctx_adt = "VhostUserMemoryContext"
+    n = 0
+    bad = []
+    for f in fb.fns.values():
+        if f.crate != "vhost" or "::tests::" in f.key or "/tests/" in (f.file or ""):
+            continue
+        own = (f.self_adt or "").endswith("::" + ctx_adt)
+        for b in f.blocks:
+            if b["cleanup"]:
+                continue
+            for st in b["stmts"]:
+                if st["k"] != "assign":
+                    continue
+                rv = st["rv"]
+                pls = []
+                if rv["k"] in ("ref", "rawptr") and rv.get("bk") not in ("shared", "fake", None):
+                    pls.append(rv["pl"])
+                if st["lhs"]["p"]:
+                    pls.append(st["lhs"])
+                for pl in pls:
+                    for pr in pl["p"]:
+                        if pr["k"] == "field" and (pr.get("adt") or "").endswith("::" + ctx_adt) and pr.get("n") in ("regions", "fds"):
+                            n += 1
+                            if not own:
+                                bad.append((f, pr.get("n"), st.get("line")))
+    for f, fld, line in bad:
+        chk.bad("D9", "%swriter:%s:%s" % (tag, f.short, fld),
+                "%s takes a mutable borrow of (or assigns) the memory-table context's `%s` list outside the context's own append: "
+                "reordering or editing one of the two parallel lists breaks the pairing of regions and descriptors" % (f.short, fld), f.loc(line))
+    if not bad:
+        chk.ok("D9", tag + "writers", "%d write accesses, all inside the context's own methods" % n)
+    chk.check(n >= 2, "D9", tag + "sites", "write accesses found", "no write access to the memory-table context found (anchor lost)")
 
 
 def _flip(op):
